@@ -15,7 +15,7 @@ for a in sys.argv[1:]:
 
 def detecting_check(meta):
     d = meta.get("detected_by", "")
-    m = re.search(r"caught by (C\d\d)", d) or re.match(r"\s*(C\d\d) (quick|thorough)", d)
+    m = re.search(r"(?<!not )caught by (C\d\d)", d) or re.match(r"\s*(C\d\d) (quick|thorough)", d)
     return m.group(1) if m else meta["property"]
 
 
@@ -29,6 +29,8 @@ def one(sd):
     subprocess.run(["git", "-C", "/repo", "worktree", "add", "-q", "--detach", wt, "HEAD"], check=True)
     try:
         r = subprocess.run(["git", "apply", os.path.abspath(sd + "/patch.diff")], cwd=wt, capture_output=True, text=True)
+        if r.returncode != 0:
+            r = subprocess.run(["git", "apply", "--3way", os.path.abspath(sd + "/patch.diff")], cwd=wt, capture_output=True, text=True)
         if r.returncode != 0:
             return sid, "SKIP patch does not apply to the current tree"
         env = dict(os.environ, UTYPE_SRC=wt, UTMC_EVIDENCE_DIR=wt + "-ev", UTMC_REPLAY_DIR=wt + "-ev/replays")
